@@ -7,7 +7,7 @@ from math import floor, ceil
 from statistics import median as _stat_median
 
 from lib import Case
-from tape import Tape
+from tape import Tape, TapeExhausted, TapeMismatch
 from deap import base, tools
 from deap.tools import emo
 
@@ -18,16 +18,22 @@ ANCHORS = [("deap/tools/selection.py", ["selRandom", "selBest", "selWorst", "sel
 LEVEL = "proof"
 RULE = ("exhaustive part: every population of n<=3 single-objective individuals over values {0,1,2} (best/worst for "
         "every k<=n+1, every tournament tape for tournsize<=2), every wheel of n<=3 positive integer fitnesses {1,2,3} "
-        "swept with all 64 draws j/64, SUS on the same wheels for every k<=8 and 7 draws; random part: n<=12, 1-4 "
-        "objectives of mixed weight signs over values {0,1,2,(3)} (many ties), k in 0..15, tournsize 1..5, parsimony "
-        "size {1,1.4,2}, both orders, epsilon {0,1/2,2}, crowding distances incl. inf, tape recorded from the real "
-        "random module calls (boundary draws 0, 1/2, prob forced in a quarter of the double/DCD cases; roulette draws "
-        "j/1024 incl. 0 and 1023/1024, draws exactly on wheel boundaries, full sweeps of 32/64/128 equally spaced "
-        "draws; SUS wheels scaled so that S/k is dyadic, draws j/1024 incl. the F13 boundary draw 0 which is compared "
-        "model-vs-implementation only; a DCD edge stream with arbitrary k). "
+        "swept with all 64 draws j/64, SUS on the same wheels for every k<=8 and 7 draws; flavoured streams (every "
+        "operator they apply to, independent of the seed): near-tie (values 1, 1+-2^-21, 1+-2^-50, 1+2^-52, 1-2^-53 / "
+        "1+-2^-30 where the code adds and averages; exact bit patterns, the Rat model compares exactly), fit_attr=other "
+        "(individuals carry a decoy `fitness` with another order and another total), the same object listed twice, "
+        "negative values; random part: n<=12, 1-4 objectives of mixed weight signs over values {0,1,2,(3)} (many ties), "
+        "k in 0..15, tournsize 1..5, parsimony size {1,1.4,2}, both orders, epsilon {0,1/2,2}, crowding distances incl. "
+        "inf, tape recorded from the real random module calls (boundary draws 0, 1/2, prob forced in a quarter of the "
+        "double/DCD cases; roulette draws j/1024 incl. 0 and 1023/1024, draws exactly on wheel boundaries, full sweeps "
+        "of 32/64/128 equally spaced draws; SUS wheels scaled so that S/k is dyadic, draws j/1024 incl. the F13 boundary "
+        "draw 0 which is compared model-vs-implementation only; a DCD edge stream with arbitrary k). A tape that does "
+        "not fit the code's random calls (incl. randomness drawn outside the hooked functions, detected by the state of "
+        "the hidden generators) is a correspondence break (TAPE:), never an oracle failure. "
         "Non-trivial = distinct case with k>=1 (and n>=2)")
 EXHAUSTIVE = {"quick": False, "thorough": False}
 TIME_BUDGET = {"quick": 60, "thorough": 900}
+MIN_CASES = 3000
 TRUSTED = ["IEEE-754: the test inputs are small integers / dyadic fractions, forced roulette and SUS draws are j/1024 "
            "and SUS wheels have S/k dyadic, so r*S, S/k, start+i*distance, value*weight, value/weight, best-eps and the "
            "numpy medians are exact and the Rat model computes the same numbers as CPython",
@@ -82,38 +88,67 @@ class Indiv(list):
     __slots__ = ("fitness", "__dict__")
 
 
+def attr_of(d):
+    return d.get("attr", "fitness")
+
+
+def canon_map(d):
+    """position -> first position holding the same object (identity unless the case lists an object twice)"""
+    return d.get("alias") or list(range(len(d["vals"])))
+
+
 def build_pop(d):
+    """`attr` = name of the fitness attribute the operator is told to use (fit_attr); when it is not
+    "fitness" the individuals also carry a decoy `fitness` with a different order.  `alias[i] = j < i`
+    puts the very object of position j at position i as well."""
     w = [Fr(x) for x in d["w"]]
     F = fit_class(w)
+    attr = attr_of(d)
     pop = []
     sizes = d.get("sizes")
     cds = d.get("cd")
+    alias = canon_map(d)
+    n = len(d["vals"])
     for i, vals in enumerate(d["vals"]):
+        if alias[i] != i:
+            pop.append(pop[alias[i]])
+            continue
         ind = Indiv([0] * (sizes[i] if sizes else 1 + i % 3))
-        ind.fitness = F(tuple(float(Fr(v)) for v in vals))
+        setattr(ind, attr, F(tuple(float(Fr(v)) for v in vals)))
+        if attr != "fitness":
+            dv = [Fr(v) for v in d["vals"][n - 1 - i]]
+            wheel = d["op"] in ("roulette", "sus")
+            if wheel:
+                dv[0] = 3 * dv[0] + 1 + i            # another order *and* another total
+            D = F if wheel else fit_class([-x for x in w])
+            ind.fitness = D(tuple(float(v) for v in dv))
         if cds is not None:
             ind.fitness.crowding_dist = float("inf") if cds[i] == "inf" else float(Fr(cds[i]))
         pop.append(ind)
     return w, pop
 
 
+def _fit_state(f):
+    return (f.wvalues, f.values, getattr(f, "crowding_dist", None), id(f),
+            sorted(f.__dict__.items()) if hasattr(f, "__dict__") else None)
+
+
 def snapshot(pop):
-    return [(id(x), list(x), x.fitness.wvalues, x.fitness.values, getattr(x.fitness, "crowding_dist", None),
-             id(x.fitness), sorted(x.__dict__.items()), sorted(x.fitness.__dict__.items())
-             if hasattr(x.fitness, "__dict__") else None)
+    return [(id(x), list(x), _fit_state(x.fitness),
+             sorted((k, _fit_state(v) if isinstance(v, base.Fitness) else v) for k, v in x.__dict__.items()))
             for x in pop]
 
 
-def wv_exact(ind):
-    return tuple(Fr(x) for x in ind.fitness.wvalues)
+def wv_exact(ind, attr="fitness"):
+    return tuple(Fr(x) for x in getattr(ind, attr).wvalues)
 
 
-def val_exact(ind):
-    return tuple(Fr(x) for x in ind.fitness.values)
+def val_exact(ind, attr="fitness"):
+    return tuple(Fr(x) for x in getattr(ind, attr).values)
 
 
-def pop_token(pop):
-    return ";".join(slist(wv_exact(x)) for x in pop) if pop else "-"
+def pop_token(pop, attr="fitness"):
+    return ";".join(slist(wv_exact(x, attr)) for x in pop) if pop else "-"
 
 
 def tape_tokens(draws):
@@ -149,20 +184,21 @@ OPS = ("best", "worst", "random", "tourn", "roulette", "sus", "dtourn", "lex", "
 
 def call_op(d, pop):
     op, k = d["op"], d["k"]
+    kw = {"fit_attr": d["attr"]} if "attr" in d else {}
     if op == "best":
-        return tools.selBest(pop, k)
+        return tools.selBest(pop, k, **kw)
     if op == "worst":
-        return tools.selWorst(pop, k)
+        return tools.selWorst(pop, k, **kw)
     if op == "random":
         return tools.selRandom(pop, k)
     if op == "tourn":
-        return tools.selTournament(pop, k, d["ts"])
+        return tools.selTournament(pop, k, d["ts"], **kw)
     if op == "roulette":
-        return tools.selRoulette(pop, k)
+        return tools.selRoulette(pop, k, **kw)
     if op == "sus":
-        return tools.selStochasticUniversalSampling(pop, k)
+        return tools.selStochasticUniversalSampling(pop, k, **kw)
     if op == "dtourn":
-        return tools.selDoubleTournament(pop, k, d["fs"], float(d["ps"]), d["ff"])
+        return tools.selDoubleTournament(pop, k, d["fs"], float(d["ps"]), d["ff"], **kw)
     if op == "lex":
         return tools.selLexicase(pop, k)
     if op == "epslex":
@@ -184,7 +220,7 @@ def forced_tape_for(d, pop, w):
         return [("random", float(Fr(j, den))) for j in d["j"]]
     if op == "sus" and "j" in d and k > 0:
         den = d.get("den", 1024)
-        s = sum(x.fitness.values[0] for x in pop)
+        s = sum(getattr(x, attr_of(d)).values[0] for x in pop)
         dist = s / float(k)
         x = Fr(dist) * Fr(d["j"], den)
         assert Fr(float(x)) == x
@@ -195,7 +231,7 @@ def forced_tape_for(d, pop, w):
         with Tape(rng=_stdrandom.Random(d["seed"])) as tp:
             try:
                 call_op(d, scratch)
-            except (IndexError, ValueError):
+            except (IndexError, ValueError, TypeError, AttributeError, AssertionError):
                 return None
         draws = list(tp.draws)
         vals = d["rforce"]
@@ -230,35 +266,64 @@ def mad_tolerance(vals):
     return Fr(_stat_median([abs(v - med) for v in vals]))
 
 
-def oracle(d, w, pop, res, idx, draws):
-    """The property statement evaluated on the implementation's result (None = holds)."""
+TAPE_MISFIT = "TAPE: the recorded random draws do not have the shape the operator's documented sampling gives (%s)"
+
+
+def parsimony_pick(sz, a, b, r, prob):
+    """the size tournament of the statement: the smaller of (a, b) wins iff r < parsimony_size/2;
+    equal sizes: the first one iff r < 1/2"""
+    if sz[a] > sz[b]:
+        a, b = b, a
+    elif sz[a] == sz[b]:
+        prob = Fr(1, 2)
+    return a if r < prob else b
+
+
+def kinds(draws):
+    return [x[0] for x in draws]
+
+
+def oracle(d, w, pop, res, idx, draws, tape_ok=True):
+    """The property statement evaluated on the implementation's result (None = holds).  `idx` are canonical
+    positions (first position of the object).  Clauses that do not need the tape come first; a tape that
+    does not fit is reported last, as a correspondence break (`TAPE:`)."""
     op, k, n = d["op"], d["k"], len(pop)
+    attr = attr_of(d)
+    cm = canon_map(d)
     want_len = min(k, n) if op in ("best", "worst") else k
     if len(res) != want_len:
         return "returned %d individuals, %d requested (n=%d)" % (len(res), k, n)
     if any(i is None for i in idx):
         return "a returned element is not one of the input objects (copy?)"
-    wv = [wv_exact(x) for x in pop]
+    wv = [wv_exact(x, attr) for x in pop]
     if op in ("best", "worst"):
-        if len(set(idx)) != len(idx):
-            return "an individual was returned twice"
+        # as multisets of positions: nothing returned more often than it is listed in the input
+        have = {}
+        for i in cm:
+            have[i] = have.get(i, 0) + 1
+        for i in set(idx):
+            if idx.count(i) > have[i]:
+                return "an individual was returned more often than it occurs in the input"
         keys = [wv[i] for i in idx]
         for a, b in zip(keys, keys[1:]):
             if (lex_lt(a, b) if op == "best" else lex_lt(b, a)):
                 return "result is not in fitness order"
-        omitted = [wv[i] for i in range(n) if i not in set(idx)]
+        omitted = []
+        for i in set(cm):
+            omitted += [wv[i]] * (have[i] - idx.count(i))
         for o in omitted:
             for kk in keys:
                 if (lex_lt(kk, o) if op == "best" else lex_lt(o, kk)):
                     return "an omitted individual is more extreme than a kept one"
         return None
     if op == "random":
+        if not tape_ok or kinds(draws) != ["choice"] * k:
+            return TAPE_MISFIT % "k choices"
         return None
     if op == "tourn":
-        ch = [dr[2] for dr in draws]
-        groups = chunks(ch, d["ts"])
-        if len(groups) != k or any(dr[0] != "choice" for dr in draws):
-            return "tape does not consist of k*tournsize choices"
+        if not tape_ok or kinds(draws) != ["choice"] * (k * d["ts"]):
+            return TAPE_MISFIT % "k*tournsize choices"
+        groups = chunks([cm[dr[2]] for dr in draws], d["ts"])
         for wi, g in zip(idx, groups):
             if wi not in g:
                 return "tournament winner %d was not sampled for its tournament %r" % (wi, g)
@@ -266,11 +331,11 @@ def oracle(d, w, pop, res, idx, draws):
                 return "tournament winner %d is worse than a sampled aspirant of %r" % (wi, g)
         return None
     if op == "roulette":
-        f = [val_exact(x)[0] for x in pop]
+        f = [val_exact(x, attr)[0] for x in pop]
         s = sum(f)
+        if not tape_ok or kinds(draws) != ["random"] * k:
+            return TAPE_MISFIT % "k random() draws"
         rs = [Fr(dr[1]) for dr in draws]
-        if len(rs) != k:
-            return "roulette used %d draws for k=%d" % (len(rs), k)
         # layout-agnostic: whatever the order of the wheel, the draws that pick individual i lie in one
         # half-open interval of length f_i/S, so they are contiguous among the sorted draws of this call
         # and span less than f_i/S
@@ -299,8 +364,10 @@ def oracle(d, w, pop, res, idx, draws):
     if op == "sus":
         if k == 0:
             return None
-        f = [val_exact(x)[0] for x in pop]
+        f = [val_exact(x, attr)[0] for x in pop]
         s = sum(f)
+        if not tape_ok or kinds(draws) != ["uniform"]:
+            return TAPE_MISFIT % "one uniform draw"
         dr = draws[0]
         if Fr(dr[3]) == Fr(dr[1]):
             return None          # boundary draw start == 0.0: F13, outside the oracle stream
@@ -312,25 +379,35 @@ def oracle(d, w, pop, res, idx, draws):
         return None
     if op == "dtourn":
         fs = d["fs"]
+        sz = [len(x) for x in pop]
+        prob = Fr(float(d["ps"])) / 2
+        unit = (["choice"] * (2 * fs) + ["random"]) if d["ff"] else (["choice", "choice", "random"] * fs)
+        if not tape_ok or kinds(draws) != unit * k:
+            return TAPE_MISFIT % "per selection: two fitness groups and a coin / fitness_size (pair, coin) triples"
         pos = 0
+
+        def best_of(g):
+            return [a for a in g if not any(lex_lt(wv[a], wv[b]) for b in g)]
         for wi in idx:
             if d["ff"]:
-                g1 = [x[2] for x in draws[pos:pos + fs]]
-                g2 = [x[2] for x in draws[pos + fs:pos + 2 * fs]]
+                g1 = [cm[x[2]] for x in draws[pos:pos + fs]]
+                g2 = [cm[x[2]] for x in draws[pos + fs:pos + 2 * fs]]
+                r = Fr(draws[pos + 2 * fs][1])
                 pos += 2 * fs + 1
-                ok = any(wi in g and not any(lex_lt(wv[wi], wv[a]) for a in g) for g in (g1, g2))
-                if not ok:
-                    return "double tournament (fitness first): %d is not a fitness winner of %r or %r" % (wi, g1, g2)
+                # each fitness tournament returns a best of its group; the size tournament between the two
+                # winners follows the parsimony rule
+                if not any(parsimony_pick(sz, w1, w2, r, prob) == wi for w1 in best_of(g1) for w2 in best_of(g2)):
+                    return ("double tournament (fitness first): %d is not the parsimony pick (draw %s) between "
+                            "fitness winners of %r and %r" % (wi, r, g1, g2))
             else:
-                pairs = []
+                asp = []
                 for _ in range(fs):
-                    pairs.append((draws[pos][2], draws[pos + 1][2]))
+                    asp.append(parsimony_pick(sz, cm[draws[pos][2]], cm[draws[pos + 1][2]], Fr(draws[pos + 2][1]), prob))
                     pos += 3
-                if not any(wi in p for p in pairs):
-                    return "double tournament (size first): %d was not sampled in %r" % (wi, pairs)
-                for p in pairs:
-                    if all(lex_lt(wv[wi], wv[a]) for a in p):
-                        return "double tournament (size first): %d is worse than both members of %r" % (wi, p)
+                if wi not in asp:
+                    return "double tournament (size first): %d is not a parsimony pick of its pairs (%r)" % (wi, asp)
+                if any(lex_lt(wv[wi], wv[a]) for a in asp):
+                    return "double tournament (size first): %d is worse than another size-tournament winner of %r" % (wi, asp)
         return None
     if op in ("lex", "epslex", "autolex"):
         vals = [val_exact(x) for x in pop]
@@ -342,21 +419,26 @@ def oracle(d, w, pop, res, idx, draws):
 
         def better_by(x, y, c, tol):
             return sign[c] * vals[x][c] > sign[c] * vals[y][c] + tol
-        pos = 0
-        for wi in idx:
-            order = list(draws[pos][2])
-            pos += 2
-            rivals = [x for x in range(n) if x != wi and all(geq(x, wi, c) for c in range(ncase))]
-            if op == "lex":
-                for x in rivals:
+        rivals_of = lambda wi: [x for x in range(n) if cm[x] != wi and all(geq(x, wi, c) for c in range(ncase))]
+        if op == "lex":
+            for wi in idx:
+                for x in rivals_of(wi):
                     if any(better_by(x, wi, c, 0) for c in range(ncase)):
                         return "lexicase winner %d is dominated case-by-case by %d" % (wi, x)
-            elif op == "epslex":
-                eps = Fr(d["eps"])
-                for x in rivals:
+        elif op == "epslex":
+            eps = Fr(d["eps"])
+            for wi in idx:
+                for x in rivals_of(wi):
                     if any(better_by(x, wi, c, eps) for c in range(ncase)):
                         return "epsilon-lexicase winner %d is beaten by more than epsilon by %d, which is nowhere worse" % (wi, x)
-            else:
+        if not tape_ok or kinds(draws) != ["shuffle", "choice"] * k:
+            return TAPE_MISFIT % "per selection one shuffle of the cases and one choice"
+        if op == "autolex":
+            pos = 0
+            for wi in idx:
+                order = list(draws[pos][2])
+                pos += 2
+                rivals = rivals_of(wi)
                 # the tolerance used at a case is the MAD of the candidates that reached it; candidates
                 # that are nowhere worse than the winner must all still be there
                 cands = list(range(n))
@@ -377,6 +459,8 @@ def oracle(d, w, pop, res, idx, draws):
         for i in set(idx):
             if idx.count(i) > 2:
                 return "individual %d selected %d times by the crowding tournament" % (i, idx.count(i))
+        if not tape_ok or kinds(draws)[:2] != ["sample", "sample"] or any(x != "random" for x in kinds(draws)[2:]):
+            return TAPE_MISFIT % "two samples, then coins"
         return None
     raise ValueError(op)
 
@@ -387,32 +471,35 @@ def in_quantifier(d, n):
     if n == 0:
         return False
     if op == "dcd":
-        return k <= n and k % 4 == 0
+        return k <= n and k % 4 == 0 and "alias" not in d
     return not d.get("edge", False)
 
 
 def line_for(d, w, pop, draws):
     op, k = d["op"], d["k"]
     tp = tape_tokens(draws)
-    pt = pop_token(pop)
+    pt = pop_token(pop, attr_of(d))
+    head = ["C06"]
+    if "alias" in d:
+        head += ["canon", ilist(canon_map(d))]
     if op in ("best", "worst"):
-        head = ["C06", op, pt, str(k)]
+        head += [op, pt, str(k)]
     elif op == "random":
-        head = ["C06", "random", str(len(pop)), str(k)]
+        head += ["random", str(len(pop)), str(k)]
     elif op == "tourn":
-        head = ["C06", "tourn", pt, str(k), str(d["ts"])]
+        head += ["tourn", pt, str(k), str(d["ts"])]
     elif op in ("roulette", "sus"):
-        head = ["C06", op, slist(w), pt, str(k)]
+        head += [op, slist(w), pt, str(k)]
     elif op == "dtourn":
-        head = ["C06", "dtourn", pt, ilist(len(x) for x in pop), str(k), str(d["fs"]), sfr(Fr(float(d["ps"]))),
-                "1" if d["ff"] else "0"]
+        head += ["dtourn", pt, ilist(len(x) for x in pop), str(k), str(d["fs"]), sfr(Fr(float(d["ps"]))),
+                 "1" if d["ff"] else "0"]
     elif op in ("lex", "epslex", "autolex"):
         rule = {"lex": "exact", "autolex": "auto"}.get(op) or "eps:" + sfr(Fr(d["eps"]))
-        head = ["C06", "lex", rule, slist(w), pt, str(k)]
+        head += ["lex", rule, slist(w), pt, str(k)]
     elif op == "dcd":
         cds = ",".join(INF_TOKEN if x.fitness.crowding_dist == float("inf") else sfr(Fr(x.fitness.crowding_dist))
                        for x in pop) or "-"
-        head = ["C06", "dcd", pt, cds, str(k)]
+        head += ["dcd", pt, cds, str(k)]
     else:
         raise ValueError(op)
     return " ".join(head + tp)
@@ -429,17 +516,43 @@ def tag_for(d, pop, draws, res):
         t += "/eps=%s" % d["eps"]
     elif op == "dcd":
         t += "/coin" if any(x[0] == "random" for x in draws) else "/decided"
-    elif op == "sus" and draws and Fr(draws[0][3]) == 0:
+    elif op == "sus" and draws and draws[0][0] == "uniform" and Fr(draws[0][3]) == 0:
         t += "/r=0"
-    if d.get("sweep"):
-        t += "/sweep"
-    if "rforce" in d:
-        t += "/boundary-draws"
-    if d.get("exh"):
-        t += "/exhaustive"
+    for key, lab in (("sweep", "sweep"), ("rforce", "boundary-draws"), ("exh", "exhaustive"), ("near", "near-tie"),
+                     ("attr", "fit_attr"), ("alias", "same-object-twice"), ("neg", "negative")):
+        if d.get(key):
+            t += "/" + lab
     if d["k"] == 0:
         t += "/k=0"
     return t
+
+
+def _global_rng_state():
+    import numpy
+    st = numpy.random.get_state()
+    return (_stdrandom.getstate(), st[0], st[1].tobytes(), st[2:])
+
+
+def run_impl(d, pop, forced):
+    """Run the real operator under the tape.  Returns (result, python error, tape problem, draws).
+    The hidden generators behind `random.*` / `numpy.random.*` must not move: every hooked function draws
+    from the tape's own generator, so a changed state means the code drew randomness the tape cannot see
+    (random.choices, getrandbits, randbytes, numpy.random.*, ...)."""
+    tp = Tape(rng=_stdrandom.Random(d.get("seed", 0)), forced=forced)
+    st = _global_rng_state()
+    err = tape_err = res = None
+    with tp:
+        try:
+            res = call_op(d, pop)
+        except (TapeExhausted, TapeMismatch) as e:
+            tape_err = "%s: %s" % (type(e).__name__, e)
+        except (IndexError, ValueError, ZeroDivisionError, AssertionError, TypeError, AttributeError, KeyError) as e:
+            err = "%s: %s" % (type(e).__name__, e)
+    if tape_err is None and _global_rng_state() != st:
+        tape_err = "the code drew random numbers outside the recorded tape (unhooked random / numpy.random entry point)"
+    if tape_err is None and forced is not None and tp.forced:
+        tape_err = "%d forced draws were left unread" % len(tp.forced)
+    return res, err, tape_err, list(tp.draws)
 
 
 def evaluate(d):
@@ -450,37 +563,47 @@ def evaluate(d):
     before = snapshot(pop)
     order_before = [id(x) for x in pop]
     forced = forced_tape_for(d, pop, w)
-    tp = Tape(rng=_stdrandom.Random(d.get("seed", 0)), forced=forced)
-    err = None
-    res = None
-    with tp:
-        try:
-            res = call_op(d, pop)
-        except (IndexError, ValueError, ZeroDivisionError, AssertionError, TypeError) as e:
-            err = "%s: %s" % (type(e).__name__, e)
-    draws = list(tp.draws)
+    res, err, tape_err, draws = run_impl(d, pop, forced)
+    if tape_err is not None and forced is not None:
+        # the forced tape does not fit the calls the code makes: run once more with a recording tape so that
+        # the clauses that do not need the tape are still evaluated
+        res, err, tape_err2, draws = run_impl(d, pop, None)
     orc = None
     if [id(x) for x in pop] != order_before or snapshot(pop) != before:
         orc = "the population or one of its individuals was modified"
     if err is not None:
         if inq:
             return Case(d, [], [], oracle="implementation raised " + err, tag=op + "/exception")
+        if tape_err is not None:
+            return Case(d, [], [], oracle="TAPE: " + tape_err, tag=op + "/tape")
         # outside the quantifier: the model must refuse as well (its reading of the tape ends where Python raised)
-        return Case(d, [line_for(d, w, pop, draws)], ["none"], orc, tag=op + "/edge-raises", nontrivial=False)
-    if forced is not None and tp.forced:
-        return Case(d, [], [], oracle="implementation left %d forced draws unread" % len(tp.forced), tag=op + "/tape")
-    index_of = {id(x): i for i, x in enumerate(pop)}
+        try:
+            ln = line_for(d, w, pop, draws)
+        except ValueError as e:
+            return Case(d, [], [], orc or "TAPE: %s" % e, tag=op + "/tape")
+        return Case(d, [ln], ["none"], orc, tag=op + "/edge-raises", nontrivial=False)
+    cm = canon_map(d)
+    index_of = {}
+    for i, x in enumerate(pop):
+        index_of.setdefault(id(x), i)
     idx = [index_of.get(id(x)) for x in res]
     if orc is None and inq:
-        orc = oracle(d, w, pop, res, idx, draws)
+        orc = oracle(d, w, pop, res, idx, draws, tape_ok=tape_err is None)
     elif orc is None and any(i is None for i in idx):
         orc = "a returned element is not one of the input objects (copy?)"
+    if tape_err is not None and (orc is None or orc.startswith("TAPE:")):
+        orc = "TAPE: " + tape_err
+    if tape_err is not None or (orc or "").startswith("TAPE:"):
+        return Case(d, [], [], orc, tag=op + "/tape")
     ans = ",".join("x" if i is None else str(i) for i in idx) or "-"
     if op in ("best", "worst"):
         expect = ans
     else:
         expect = ans + " 0"
-    lines, expects = [line_for(d, w, pop, draws)], [expect]
+    try:
+        lines, expects = [line_for(d, w, pop, draws)], [expect]
+    except ValueError as e:
+        return Case(d, [], [], orc or "TAPE: %s" % e, tag=op + "/tape")
     if op == "sus" and k > 0 and not d.get("exact", True):
         lines, expects = [], []          # inexact S/k: oracle only
     return Case(d, lines, expects, orc, tag=tag_for(d, pop, draws, res) + ("" if inq else "/edge"),
@@ -496,22 +619,42 @@ PS = ["1", "1.4", "2"]
 EPS = ["0", "1/2", "2"]
 
 
-def rand_pop(rng, n=None, nobj=None, tie_heavy=None):
+def _q(num, den=1):
+    return sfr(Fr(num, den))
+
+
+# values a few ulps / a tolerance-sized step apart (all exactly representable doubles): an operator that
+# compares fitness values must tell them apart, the Rat model does
+NEAR_CMP = [_q(1), _q(1), _q((1 << 21) + 1, 1 << 21), _q((1 << 21) - 1, 1 << 21), _q((1 << 50) + 1, 1 << 50),
+            _q((1 << 50) - 1, 1 << 50), _q((1 << 52) + 1, 1 << 52), _q((1 << 53) - 1, 1 << 53), _q(0), _q(2)]
+# the same idea where the code also adds / subtracts / averages the values (epsilon and automatic lexicase)
+NEAR_ARITH = [_q(1), _q(1), _q((1 << 21) + 1, 1 << 21), _q((1 << 21) - 1, 1 << 21), _q((1 << 30) + 1, 1 << 30),
+              _q((1 << 30) - 1, 1 << 30), _q((1 << 31) + 1, 1 << 30), _q(0), _q(2)]
+NEAR_WHEEL = [_q(1), _q(1), _q((1 << 21) + 1, 1 << 21), _q((1 << 20) + 1, 1 << 20), _q((1 << 21) - 1, 1 << 21), _q(2)]
+for _v in NEAR_CMP + NEAR_ARITH + NEAR_WHEEL:
+    assert Fr(float(Fr(_v))) == Fr(_v)
+
+
+def rand_pop(rng, n=None, nobj=None, flavour=None, arith=False):
     n = n if n is not None else rng.choice([1, 2, 2, 3, 3, 4, 5, 6, 7, 8, 10, 12])
     nobj = nobj if nobj is not None else rng.choice([1, 1, 2, 2, 3, 4])
     w = [rng.choice(WEIGHTS) for _ in range(nobj)]
-    hi = rng.choice([1, 2, 2, 3]) if tie_heavy is None else (1 if tie_heavy else 3)
+    hi = rng.choice([1, 2, 2, 3])
     half = rng.random() < 0.2
+    lo = -hi if flavour == "neg" else 0
     vals = []
     for _ in range(n):
         if vals and rng.random() < 0.25:
             vals.append(list(rng.choice(vals)))           # exact duplicate of another individual
+        elif flavour == "near":
+            vals.append([rng.choice(NEAR_ARITH if arith else NEAR_CMP) for _ in range(nobj)])
         else:
-            vals.append([sfr(Fr(rng.randint(0, hi * (2 if half else 1)), 2 if half else 1)) for _ in range(nobj)])
+            vals.append([sfr(Fr(rng.randint(lo * (2 if half else 1), hi * (2 if half else 1)), 2 if half else 1))
+                         for _ in range(nobj)])
     return w, vals
 
 
-def rand_wheel(rng, n=None, mult=1):
+def rand_wheel(rng, n=None, mult=1, near=False):
     """strictly positive maximised first objective (integers), optionally a second objective"""
     n = n if n is not None else rng.choice([1, 2, 2, 3, 4, 5, 6, 8, 12])
     two = rng.random() < 0.3
@@ -519,7 +662,7 @@ def rand_wheel(rng, n=None, mult=1):
     hi = rng.choice([1, 2, 3, 5, 9])
     vals = []
     for _ in range(n):
-        v = [str(mult * rng.randint(1, hi))]
+        v = [rng.choice(NEAR_WHEEL) if near else str(mult * rng.randint(1, hi))]
         if two:
             v.append(str(rng.randint(0, 2)))
         vals.append(v)
@@ -569,92 +712,137 @@ def gen_exhaustive(tier):
                     yield {"op": op, "w": wt, "vals": v, "k": 2, "seed": n, "exh": 1}
 
 
-def gen_random(tier, rng, mult):
-    thorough = tier == "thorough"
-    total = (250000 if thorough else 8000) * mult
-    ops = ["best", "worst", "random", "tourn", "tourn", "roulette", "roulette", "sus", "sus", "sus", "dtourn", "dtourn",
-           "lex", "epslex", "epslex", "autolex", "autolex", "dcd", "dcd"]
-    for it in range(total):
-        op = ops[it % len(ops)]
-        k = rng.randint(0, 15)
-        seed = rng.randrange(1 << 30)
-        if op in ("best", "worst", "random"):
-            w, vals = rand_pop(rng)
-            yield {"op": op, "w": w, "vals": vals, "k": k, "seed": seed}
-        elif op == "tourn":
-            w, vals = rand_pop(rng)
-            yield {"op": op, "w": w, "vals": vals, "k": k, "ts": rng.randint(1, 5), "seed": seed}
-        elif op == "roulette":
+def make_case(rng, op, flavour=None):
+    """one structured random case for `op`; flavour None | "near" | "neg" | "attr" | "alias" """
+    k = rng.randint(0, 15)
+    seed = rng.randrange(1 << 30)
+    near = flavour == "near"
+    pf = flavour if flavour in ("near", "neg") else None
+    d = None
+    if op in ("best", "worst", "random"):
+        w, vals = rand_pop(rng, flavour=pf)
+        d = {"op": op, "w": w, "vals": vals, "k": k, "seed": seed}
+    elif op == "tourn":
+        w, vals = rand_pop(rng, flavour=pf)
+        d = {"op": op, "w": w, "vals": vals, "k": k, "ts": rng.randint(1, 5), "seed": seed}
+    elif op == "roulette":
+        w, vals = rand_wheel(rng, near=near)
+        js = [rng.choice([0, 1023, rng.randrange(1024), rng.randrange(1024)]) for _ in range(k)]
+        d = {"op": op, "w": w, "vals": vals, "k": k, "j": js}
+        if rng.random() < 0.12:
+            den = rng.choice([32, 64, 128])
+            d = {"op": op, "w": w, "vals": vals, "k": den, "j": list(range(den)), "den": den, "sweep": 1}
+        elif rng.random() < 0.3 and k > 0 and not near:
+            # land exactly on a wheel boundary: r = c_i / S needs S | 1024 * c_i; use den = S
+            s = sum(int(v[0]) for v in vals)
+            d["den"] = s
+            d["j"] = [rng.randrange(s) for _ in range(k)]
+            if any(Fr(float(Fr(j, s))) != Fr(j, s) for j in d["j"]) or \
+                    any(Fr(float(Fr(j, s)) * float(s)) != j for j in d["j"]):
+                d["den"] = 1024
+                d["j"] = js
+    elif op == "sus":
+        kind = rng.random()
+        if near:
+            k = rng.choice([0, 1, 2, 4, 8])
+            w, vals = rand_wheel(rng, near=True)
+            d = {"op": op, "w": w, "vals": vals, "k": k, "j": rng.choice([rng.randrange(1, 1024), 512, 1, 1023]),
+                 "exact": True}
+        elif kind < 0.75 or k == 0:
+            m = odd_part(k) if k else 1
+            if rng.random() < 0.3 and k:
+                m = k
+            w, vals = rand_wheel(rng, mult=m)
+            # r = j/1024; r = 0 is the F13 boundary draw (model-vs-implementation only)
+            j = rng.choice([rng.randrange(1, 1024), rng.randrange(1, 1024), 512, 1, 1023,
+                            0 if rng.random() < 0.5 else 256])
+            d = {"op": op, "w": w, "vals": vals, "k": k, "j": j, "exact": True}
+        else:
             w, vals = rand_wheel(rng)
-            js = [rng.choice([0, 1023, rng.randrange(1024), rng.randrange(1024)]) for _ in range(k)]
-            d = {"op": op, "w": w, "vals": vals, "k": k, "j": js}
-            if rng.random() < 0.12:
-                den = rng.choice([32, 64, 128])
-                d = {"op": op, "w": w, "vals": vals, "k": den, "j": list(range(den)), "den": den, "sweep": 1}
-            elif rng.random() < 0.3 and k > 0:
-                # land exactly on a wheel boundary: r = c_i / S needs S | 1024 * c_i; use den = S
-                s = sum(int(v[0]) for v in vals)
-                d["den"] = s
-                d["j"] = [rng.randrange(s) for _ in range(k)]
-                if any(Fr(float(Fr(j, s))) != Fr(j, s) for j in d["j"]) or \
-                        any(Fr(float(Fr(j, s)) * float(s)) != j for j in d["j"]):
-                    d["den"] = 1024
-                    d["j"] = js
-            yield d
-        elif op == "sus":
-            kind = rng.random()
-            if kind < 0.75 or k == 0:
-                m = odd_part(k) if k else 1
-                if rng.random() < 0.3 and k:
-                    m = k
-                w, vals = rand_wheel(rng, mult=m)
-                # r = j/1024; r = 0 is the F13 boundary draw (model-vs-implementation only)
-                j = rng.choice([rng.randrange(1, 1024), rng.randrange(1, 1024), 512, 1, 1023,
-                                0 if rng.random() < 0.5 else 256])
-                yield {"op": op, "w": w, "vals": vals, "k": k, "j": j, "exact": True}
+            s = sum(int(v[0]) for v in vals)
+            exact = Fr(s / float(k)) == Fr(s, k)
+            if exact:
+                d = {"op": op, "w": w, "vals": vals, "k": k, "j": rng.randrange(1, 1024), "exact": True}
             else:
-                w, vals = rand_wheel(rng)
-                s = sum(int(v[0]) for v in vals)
-                exact = Fr(s / float(k)) == Fr(s, k)
-                if exact:
-                    yield {"op": op, "w": w, "vals": vals, "k": k, "j": rng.randrange(1, 1024), "exact": True}
-                else:
-                    yield {"op": op, "w": w, "vals": vals, "k": k, "seed": seed, "exact": False}
-        elif op == "dtourn":
-            w, vals = rand_pop(rng)
-            n = len(vals)
-            sizes = [rng.choice([1, 1, 2, 3, 5]) for _ in range(n)]
-            d = {"op": op, "w": w, "vals": vals, "k": k, "fs": rng.randint(1, 5), "ps": rng.choice(PS),
-                 "ff": rng.random() < 0.5, "sizes": sizes, "seed": seed}
-            if rng.random() < 0.25:
-                d["rforce"] = [rng.choice(["0", "1/2", "prob", None]) for _ in range(3)]
-            yield d
-        elif op in ("lex", "epslex", "autolex"):
-            w, vals = rand_pop(rng, nobj=rng.choice([1, 2, 2, 3, 3, 4]))
-            d = {"op": op, "w": w, "vals": vals, "k": k, "seed": seed}
-            if op == "epslex":
-                d["eps"] = rng.choice(EPS)
-            yield d
-        elif op == "dcd":
-            w, vals = rand_pop(rng, n=rng.choice([1, 3, 4, 4, 4, 5, 6, 7, 8, 8, 8, 9, 10, 12, 12, 12]), nobj=rng.choice([1, 2, 2, 3]))
-            n = len(vals)
-            cd = [rng.choice(["0", "0", "1/2", "1", "5/2", "inf"]) for _ in range(n)]
-            r = rng.random()
-            if r < 0.8:
-                ks = [x for x in (4, 8, 12) if x <= n] or [0]
-                kk = 0 if rng.random() < 0.08 else rng.choice(ks)
-            elif r < 0.9:
-                kk = rng.randint(0, n + 1)               # edge: any k (IndexError / ValueError / longer list)
-            else:
-                kk = n                                   # k == n: ValueError unless 4 | n
-            d = {"op": op, "w": w, "vals": vals, "k": kk, "cd": cd, "seed": seed}
-            if rng.random() < 0.25:
-                d["rforce"] = [rng.choice(["0", "1/2", "3/4", None]) for _ in range(3)]
-            yield d
+                d = {"op": op, "w": w, "vals": vals, "k": k, "seed": seed, "exact": False}
+    elif op == "dtourn":
+        w, vals = rand_pop(rng, flavour=pf)
+        n = len(vals)
+        sizes = [rng.choice([1, 1, 2, 3, 5]) for _ in range(n)]
+        d = {"op": op, "w": w, "vals": vals, "k": k, "fs": rng.randint(1, 5), "ps": rng.choice(PS),
+             "ff": rng.random() < 0.5, "sizes": sizes, "seed": seed}
+        if rng.random() < 0.25:
+            d["rforce"] = [rng.choice(["0", "1/2", "prob", None]) for _ in range(3)]
+    elif op in ("lex", "epslex", "autolex"):
+        w, vals = rand_pop(rng, nobj=rng.choice([1, 2, 2, 3, 3, 4]), flavour=pf, arith=op != "lex")
+        d = {"op": op, "w": w, "vals": vals, "k": k, "seed": seed}
+        if op == "epslex":
+            d["eps"] = rng.choice(EPS)
+    elif op == "dcd":
+        w, vals = rand_pop(rng, n=rng.choice([1, 3, 4, 4, 4, 5, 6, 7, 8, 8, 8, 9, 10, 12, 12, 12]),
+                           nobj=rng.choice([1, 2, 2, 3]), flavour=pf)
+        n = len(vals)
+        cd = [rng.choice(["0", "0", "1/2", "1", "5/2", "inf"] + ([NEAR_CMP[2], NEAR_CMP[4]] if near else []))
+              for _ in range(n)]
+        r = rng.random()
+        if r < 0.8:
+            ks = [x for x in (4, 8, 12) if x <= n] or [0]
+            kk = 0 if rng.random() < 0.08 else rng.choice(ks)
+        elif r < 0.9:
+            kk = rng.randint(0, n + 1)               # edge: any k (IndexError / ValueError / longer list)
+        else:
+            kk = n                                   # k == n: ValueError unless 4 | n
+        d = {"op": op, "w": w, "vals": vals, "k": kk, "cd": cd, "seed": seed}
+        if rng.random() < 0.25:
+            d["rforce"] = [rng.choice(["0", "1/2", "3/4", None]) for _ in range(3)]
+    if flavour in ("near", "neg"):
+        d[flavour] = 1
+    if flavour == "attr":
+        d["attr"] = "other"
+    if flavour == "alias":
+        n = len(d["vals"])
+        alias = list(range(n))
+        for i in range(1, n):
+            if rng.random() < 0.4:
+                j = alias[rng.randrange(i)]
+                alias[i] = j
+                for key in ("vals", "sizes", "cd"):
+                    if key in d:
+                        d[key][i] = d[key][j] if key != "vals" else list(d[key][j])
+        if alias != list(range(n)):
+            d["alias"] = alias
+    return d
+
+
+RANDOM_OPS = ["best", "worst", "random", "tourn", "tourn", "roulette", "roulette", "sus", "sus", "sus", "dtourn",
+              "dtourn", "lex", "epslex", "epslex", "autolex", "autolex", "dcd", "dcd"]
+# the flavoured streams: (flavour, operators it applies to)
+FLAVOURS = [
+    ("near", ["best", "worst", "tourn", "dtourn", "lex", "epslex", "autolex", "dcd", "roulette", "sus"]),
+    ("attr", ["best", "worst", "tourn", "roulette", "sus", "dtourn"]),        # every operator taking fit_attr
+    ("alias", ["best", "worst", "random", "tourn", "dtourn", "lex", "epslex", "autolex", "dcd"]),
+    ("neg", ["best", "worst", "tourn", "dtourn", "lex", "epslex", "autolex", "dcd"]),
+]
+
+
+def gen_flavoured(tier, rng, mult):
+    total = (60000 if tier == "thorough" else 3600) * mult
+    for it in range(total):
+        flavour, ops = FLAVOURS[it % len(FLAVOURS)]
+        yield make_case(rng, ops[(it // len(FLAVOURS)) % len(ops)], flavour)
+
+
+def gen_random(tier, rng, mult):
+    total = (200000 if tier == "thorough" else 8000) * mult
+    for it in range(total):
+        yield make_case(rng, RANDOM_OPS[it % len(RANDOM_OPS)])
 
 
 def generate(tier, rng, mult):
+    # which streams run never depends on the seed; every stream covers every operator it applies to
     for d in gen_exhaustive(tier):
+        yield d
+    for d in gen_flavoured(tier, rng, mult):
         yield d
     for d in gen_random(tier, rng, mult):
         yield d
@@ -662,7 +850,7 @@ def generate(tier, rng, mult):
 
 def shrink(d):
     n = len(d["vals"])
-    if n > 1 and "forced" not in d:
+    if n > 1 and "forced" not in d and "alias" not in d and "attr" not in d:
         for i in range(n):
             e = dict(d)
             e["vals"] = d["vals"][:i] + d["vals"][i + 1:]
